@@ -17,19 +17,23 @@ logging.disable(logging.CRITICAL)
 
 class Svc(Protocol):
     def echo(self, x: int) -> int: ...
+    def blob(self, x: int) -> bytes: ...
 
 
 class Impl:
     def echo(self, x: int) -> int:
         return x
 
+    def blob(self, x: int) -> bytes:
+        return b"z" * x
+
 
 S = pa.schema([pa.field("x", pa.int64(), nullable=False)])
 
 
-def request(rows: list[int], **md: bytes) -> bytes:
+def request(rows: list[int], method: bytes = b"echo", **md: bytes) -> bytes:
     sink = io.BytesIO()
-    meta = {b"vgi_rpc.method": b"echo", b"vgi_rpc.request_version": b"1"}
+    meta = {b"vgi_rpc.method": method, b"vgi_rpc.request_version": b"1"}
     meta.update({k.replace("__", ".").encode(): v for k, v in md.items()})
     with ipc.new_stream(sink, S) as w:
         w.write_batch(pa.RecordBatch.from_pydict({"x": rows}, schema=S), custom_metadata=meta)
@@ -57,7 +61,9 @@ def attempt(name: str, req: bytes) -> None:
         while True:
             rd = ipc.open_stream(ct.reader)
             b, cmd = rd.read_next_batch_with_custom_metadata()
-            replies.append((cmd or {}).get(b"vgi_rpc.log_message", b"result=%d" % (b.column(0)[0].as_py() if b.num_rows else -1)).decode()[:60])
+            val = b.column(0)[0].as_py() if b.num_rows else -1
+            shown = f"result={val}" if isinstance(val, int) else f"result=<{len(val)} bytes>"
+            replies.append((cmd or {}).get(b"vgi_rpc.log_message", shown.encode()).decode()[:60])
             for _ in rd:
                 pass
     except Exception:  # noqa: BLE001 - EOF
@@ -76,6 +82,11 @@ try:
     attempt("pointer without length", request([], vgi_rpc__shm_offset=b"65536", **seg))
     attempt("pointer out of range", request([], vgi_rpc__shm_offset=b"99999999", vgi_rpc__shm_length=b"10", **seg))
     attempt("traceparent not UTF-8", request([1], traceparent=b"\xff\xfe"))
+    # still open at HEAD 4f2decc: the segment attaches, but its allocation table is garbage and the result is large
+    # enough to be routed through it -> struct.error escapes while the response is written
+    import struct
+    struct.pack_into("<I", good.buf, 16, 0xFFFFFFFF)
+    attempt("corrupt allocation table", request([300_000], method=b"blob", **seg))
 finally:
     good.unlink()
     good.close()
